@@ -8,7 +8,7 @@ from ..ref import geom as G
 from ..runner import Acc
 
 ID = "C10"
-TOL = 2e-8
+TOL = 1e-9
 
 META = {
     "rule": "12 Jacobian methods x 4 pose types x every (self, other) pair / (self, point) pair / self of the pose alphabets; documented shape, "
